@@ -38,8 +38,9 @@ structure Merklizer where
 deriving Repr
 
 /-- MerklizeJSONLD after normalisation: entries, entry map keyed by key hash, tree insertion.
-    `P` is the tree's own node hash (always Poseidon in go-merkletree-sql), `t₀` a caller-provided tree. -/
-def merklize (canon : String → Option String) (P : List Nat → Nat) (h : Hasher) (ds : Dataset) (t₀ : T := .empty) :
+    `t₀` is a caller-provided tree (the tree's own node hash — always Poseidon in go-merkletree-sql — enters
+    only through `root` and `proof`). -/
+def merklize (canon : String → Option String) (h : Hasher) (ds : Dataset) (t₀ : T := .empty) :
     Except String Merklizer :=
   match entries canon h.prime ds with
   | .error e => .error e
@@ -49,7 +50,7 @@ def merklize (canon : String → Option String) (P : List Nat → Nat) (h : Hash
     | .ok kvs =>
       match addAll (kvs.map fun x => (x.k, x.v)) t₀ with
       | .error _ => .error "tree-add"
-      | .ok t => let _ := P; .ok ⟨kvs, t⟩
+      | .ok t => .ok ⟨kvs, t⟩
 
 def root (P : List Nat → Nat) (mz : Merklizer) : Nat := T.hash P mz.tree
 
@@ -66,6 +67,20 @@ def proof (P : List Nat → Nat) (h : Hasher) (mz : Merklizer) (path : List Path
   | .error e => .error e
   | .ok k =>
     match genProof P k mz.tree 0 maxLevels [] with
+    | .error _ => .error "gen-proof"
+    | .ok pf =>
+      if pf.existence then
+        match entryAt mz k with
+        | none => .error "assert-entry"
+        | some kv => .ok ⟨pf, some kv.entry.value⟩
+      else .ok ⟨pf, none⟩
+
+/-- `proof` with a pre-annotated tree (driver use; equal to `proof` by `genProofH_eq`) -/
+def proofH (P : List Nat → Nat) (h : Hasher) (mz : Merklizer) (th : TH) (path : List PathPart) : Except String ProofRes :=
+  match keyHash h path with
+  | .error e => .error e
+  | .ok k =>
+    match genProofH P k th 0 maxLevels [] with
     | .error _ => .error "gen-proof"
     | .ok pf =>
       if pf.existence then
